@@ -7,7 +7,7 @@ from .. import gen, pkg
 from ..oracles import all_binary_on, all_leaf_labelled_trees, double_factorial_odd, refinements
 from ..plain import Instance, PTree, from_ete, label_internal, parse_newick
 from ..runner import Result, Skip, Violation
-from ..solver_common import MODE, case_of_output, check_refinement, reference, validate_output
+from ..solver_common import MODE, case_of_output, check_refinement, prescribed_root_of, reference, validate_output
 
 ID = "C08"
 LEVEL = "exploration"
@@ -257,7 +257,7 @@ def check_solve(case):
         check_refinement(orig_o, ot, f"{algo}.object")
         check_refinement(orig_s, stt, f"{algo}.species")
         inst = Instance(ocase)
-        _m, _lab, tot = validate_output(inst, out, algo, "ALL")
+        _m, _lab, tot = validate_output(inst, out, algo, "ALL", prescribed_root_of(inst) if ordered else None)
         if tot != best:
             raise Violation(f"{algo}.cost!=min-over-refinements", observed=tot, expected=best)
         sol = pkg.canon_output(out, labelled=True, ordered=ordered)
@@ -275,7 +275,7 @@ def check_solve(case):
     check_refinement(orig_o, ot, f"{algo}.ANY.object")
     check_refinement(orig_s, stt, f"{algo}.ANY.species")
     ainst = Instance(ocase)
-    _m, _lab, tot = validate_output(ainst, any_out[0], algo, "ANY")
+    _m, _lab, tot = validate_output(ainst, any_out[0], algo, "ANY", prescribed_root_of(ainst) if ordered else None)
     if tot != best:
         raise Violation(f"{algo}.ANY.cost!=min-over-refinements", observed=tot, expected=best)
     if _clade_key(ainst, ot, stt, pkg.canon_output(any_out[0], labelled=True, ordered=ordered), ordered) not in union:
